@@ -6,15 +6,21 @@ from tie.framework import g_Z, g_bool, g_list, g_opt, g_pair, g_str, run_impl_pa
 
 PROP = "C04"
 IMPORTS = "From JV Require Import Lib.Base Lib.C04Base Model.C04Sources Spec.C04Spec Model.C04Wf Corr.C04Judge."
-RULE = ("seeded scenarios: a parser of 2-7 flat/nested int, str, Optional[str], List[int] and Dict[str,int] keys (defaults None or typed; "
+RULE = ("seeded scenarios: a parser of 2-7 flat/nested int, str, Optional[str], List[int], nargs='+' int and Dict[str,int] keys (defaults None or typed; "
         "str values are tokens 't<n>' and the EMPTY string, rendered in every source: variable set to '', `--k=`, `k: ''`), 0-3 "
-        "default_config_files patterns (literal, glob with 0-3 matches whose names sort non-trivially, missing, blank file), "
+        "default_config_files patterns (literal, glob with 0-3 matches whose names sort non-trivially, missing, blank file; in 40 % "
+        "of the lists one file is reached a SECOND time: pattern listed again, file named explicitly, overlapping narrower glob), "
         "env config via the config variable (file or string), 0-3 individual variables, default_env x JSONARGPARSE_DEFAULT_ENV x "
         "env= argument, and one of parse_args (0-6 items: --k=v, --k+=v, --k.item=v, --cfg file/string), parse_env, parse_string, "
-        "parse_object; all values are fresh tokens so every order change is visible; sources are biased to 1-3 hot keys. "
+        "parse_object; parse_args also through sys.argv; 4 % of the command lines carry one item outside the well-formed space "
+        "('--key+' for a non-list key, undeclared option: the call must be rejected); a variable of a nargs='+' key with one element is "
+        "written bare; 20 % of the flat scenarios are HISTORIES on one parser object: built with another env_prefix / default_env, one "
+        "environment-reading parse (decoy variables under the old names), then env_prefix and default_env assigned through the "
+        "properties, then the observed parse; all values are fresh tokens so every order change is visible; sources are biased to 1-3 hot keys. "
         "a quarter of the scenarios have one level of subcommands: parse_args(parent items, NAME, subcommand items) with 1-3 parent keys, "
         "2-4 keys of the chosen subcommand and a bystander subcommand, environment variables PREFIX_NAME__KEY, parent-level --cfg "
-        "documents with a NAME: section (plain assignments), options and (if the subcommand has one) --cfg after the token. "
+        "documents with a NAME: section (plain assignments), options and (if the subcommand has one) --cfg after the token; "
+        "the variable PREFIX_SUBCOMMAND is unset, NAME, the bystander or no subcommand. "
         "non-trivial = at least two sources assign the same key; distinct = distinct (scenario, observation)")
 TRUSTED = [
     "Coq 8.16.1 kernel + vm_compute",
@@ -26,10 +32,14 @@ ASSUMPTIONS = [
     "values are int tokens, string tokens ('t<n>' and '') for str/Optional[str] keys, List[int] and Dict[str,int]; type conversion is the "
     "identity on them (conversion is C02/C05)",
     "subcommand scenarios (judged case by case, not covered by C04_precedence): parse_args only, the subcommand is named on the command "
-    "line (never by PREFIX_SUBCOMMAND or a `subcommand:` key); default config files and the environment config may carry plain "
+    "line (PREFIX_SUBCOMMAND may be set to anything, a `subcommand:` key is never written); default config files and the environment config may carry plain "
     "assignments in the NAME: section, parent-level --cfg documents also appends; options before the token address the parent's "
     "keys; a parent key sharing its name with a list key of the subcommand is not str-typed",
     "declared keys are prefix-free (a key is a group or an argument), carry no '+', and each document mentions a key once",
+    "a nargs='+' key is a list-typed key of the model that only ever receives plain assignments (the code has no 'key+' for it); on the "
+    "command line it is written `--key 1 2 3`; parent keys of subcommand scenarios are never nargs='+' (the token would be swallowed)",
+    "histories: only the FINAL env_prefix / default_env of the parser count (assigned through the properties after a first parse); "
+    "subcommand parsers are not re-prefixed after add_subcommand",
     "PyYAML/json round-trip the generated documents; argparse splits '--opt=value' and '--opt value' alike",
 ]
 EXHAUSTIVE = {"quick": False, "thorough": False}
@@ -40,7 +50,8 @@ import os as _os
 
 JUDGE = _os.environ.get("VERIF_C04_JUDGE", "judge")
 FINDING_CLASSES = {1: "envcfg-append-ignores-earlier-list", 3: "subcommand-variable-loses-to-earlier-parent-source",
-                   4: "default-config-without-subcommand-section-rejected", 5: "section-append-uses-parent-list"}
+                   4: "default-config-without-subcommand-section-rejected", 5: "section-append-uses-parent-list",
+                   6: "subcommand-variable-resets-section-to-defaults"}
 
 LEAVES = ["a", "b", "l", "m", "d", "e", "g.x", "g.l", "g.d", "g.h.y", "g.h.l", "g.h.d", "k.x", "k.l", "k.d"]
 ITEMS = ["p", "q", "r", "s"]
@@ -58,7 +69,8 @@ class Tok:
 
 
 STR_KINDS = ("str", "optstr")
-COQ_KIND = {"scalar": "KScalar", "str": "KScalar", "optstr": "KScalar", "list": "KList", "dict": "KDict"}
+# "nlist" is `type=int, nargs="+"`: a list-valued key of the argparse kind (no "key+" form: it only receives plain assignments)
+COQ_KIND = {"scalar": "KScalar", "str": "KScalar", "optstr": "KScalar", "list": "KList", "nlist": "KList", "dict": "KDict"}
 SUBNAMES = ["fit", "run", "tune"]
 
 
@@ -69,6 +81,8 @@ def gen_value(rng, kind, tok, allow_empty=True):
         # a str / Optional[str] key: token n is rendered as the string "t<n>", token 0 as the EMPTY string (a legal
         # value in every source: variable set to "", `--k=`, `k: ''` in a document)
         return 0 if rng.random() < 0.3 else tok()
+    if kind == "nlist":
+        return [tok() for _ in range(rng.choice([1, 1, 2, 3]))]
     if kind == "list":
         n = rng.choice([0, 1, 1, 2, 3]) if allow_empty else rng.choice([1, 1, 2, 3])
         return [tok() for _ in range(n)]
@@ -94,13 +108,38 @@ def gen_doc(rng, decls, hot, tok, nonempty=False, set_only=False, pmax=0.5):
     return doc
 
 
+def relist_patterns(rng, patterns, p=0.4):
+    """A default config file reached a second time by the listed entries: the whole pattern listed again, one of its
+    files named explicitly, or an overlapping narrower glob — anywhere after (or, for the explicit name / narrower glob,
+    before) the pattern, other patterns in between: the file is applied at EVERY position it is listed at."""
+    src = [i for i, q in enumerate(patterns) if q["matches"]]
+    if not src or rng.random() >= p:
+        return
+    i = rng.choice(src)
+    q = patterns[i]
+    mode = rng.choice(["again", "literal", "subglob"]) if q["pattern"].endswith("*.yaml") else "again"
+    if mode == "again":
+        new = {"pattern": q["pattern"], "matches": [dict(m) for m in q["matches"]]}
+        pos = rng.randint(i + 1, len(patterns))
+    elif mode == "literal":
+        m = rng.choice(q["matches"])
+        new = {"pattern": m["name"], "matches": [dict(m)]}
+        pos = rng.randint(0, len(patterns))
+    else:
+        stem = q["pattern"][: -len("*.yaml")]
+        first = rng.choice(q["matches"])["name"][len(stem)]
+        new = {"pattern": stem + first + "*.yaml", "matches": [dict(m) for m in q["matches"] if m["name"][len(stem)] == first]}
+        pos = rng.randint(0, len(patterns))
+    patterns.insert(pos, new)
+
+
 def gen_case(rng):
     tok = Tok()
     nk = rng.randint(2, 7)
     keys = rng.sample(LEAVES, nk)
     decls = []
     for k in keys:
-        kind = rng.choice(["scalar", "str", "optstr", "list", "list", "dict"])
+        kind = rng.choice(["scalar", "str", "optstr", "list", "list", "dict", "nlist"])
         default = None if rng.random() < 0.3 else gen_value(rng, kind, tok)
         decls.append({"key": k, "kind": kind, "default": default})
     if not any(d["kind"] == "list" for d in decls):
@@ -136,6 +175,7 @@ def gen_case(rng):
         else:
             pattern = "%s%d_missing.yaml" % (tag, i)
         patterns.append({"pattern": pattern, "matches": matches})
+    relist_patterns(rng, patterns)
 
     envcfg = None
     if rng.random() < 0.5:
@@ -163,7 +203,15 @@ def gen_case(rng):
         # two-stage parsing: after this many add_argument calls the runner makes a warm-up parse of the environment,
         # then adds the remaining arguments (anything the parser caches about its arguments at the first parse shows)
         "stage_at": rng.randint(1, nk - 1) if nk > 1 and rng.random() < 0.25 else None,
+        # a variable of a nargs="+" key that holds ONE element is written bare ("7" instead of "[7]")
+        "env_bare": rng.random() < 0.5,
     }
+    # a history on the ONE parser object: it is built with other settings (prefix, default_env), parses once with the
+    # environment (decoy variables under the old names stay set), then env_prefix / default_env are assigned the
+    # settings of the scenario through the properties; the observed parse follows.  Only the final settings count.
+    if case["stage_at"] is None and rng.random() < 0.2:
+        case["history"] = {"old_prefix": rng.choice([q for q in ("OLD", "prog", "none") if q != case["env_prefix"] and not (q == "prog" and case["env_prefix"] == "str")]),
+                           "old_default_env": rng.random() < 0.6, "warm": rng.choice(["env", "args", "string", "object"])}
     r = rng.random()
     if r < 0.55:
         argv = []
@@ -194,7 +242,14 @@ def gen_case(rng):
         if envcfg is not None and envcfg["as"] == "file" and rng.random() < 0.3:
             argv.insert(rng.randint(0, len(argv)), {"cfg": envcfg["doc"], "as": "file", "fmt": envcfg["fmt"], "fid": "envcfg",
                                                      "style": rng.choice(["eq", "space"])})
-        case["entry"] = {"kind": "args", "argv": argv}
+        # rarely one item outside the well-formed space: "--key+" for a key that is no list, or an undeclared option
+        # (the call must be rejected: Unrecognized in the model)
+        if rng.random() < 0.04:
+            pool = [d for d in decls if d["kind"] not in ("list", "nlist")]
+            key = rng.choice(pool)["key"] if pool and rng.random() < 0.7 else "zz"
+            argv.insert(rng.randint(0, len(argv)), {"asg": [key, "append", tok()], "style": rng.choice(["eq", "space"])})
+        # parse_args() without a list reads sys.argv[1:]
+        case["entry"] = {"kind": "args", "argv": argv, "via_sysargv": rng.random() < 0.15}
     elif r < 0.65:
         case["entry"] = {"kind": "env", "as_dict": rng.random() < 0.5}
     elif r < 0.83:
@@ -204,10 +259,10 @@ def gen_case(rng):
     return case
 
 
-def gen_decls(rng, keys, tok):
+def gen_decls(rng, keys, tok, nlist=False):
     out = []
     for k in keys:
-        kind = rng.choice(["scalar", "scalar", "str", "optstr", "list", "list", "dict"])
+        kind = rng.choice(["scalar", "scalar", "str", "optstr", "list", "list", "dict"] + (["nlist"] if nlist else []))
         out.append({"key": k, "kind": kind, "default": None if rng.random() < 0.3 else gen_value(rng, kind, tok)})
     return out
 
@@ -226,7 +281,7 @@ def gen_sub_case(rng):
     tok = Tok()
     own = gen_decls(rng, rng.sample(LEAVES, rng.randint(1, 3)), tok)
     name, other = rng.sample(SUBNAMES, 2)
-    sdecls = gen_decls(rng, rng.sample(LEAVES, rng.randint(2, 4)), tok)
+    sdecls = gen_decls(rng, rng.sample(LEAVES, rng.randint(2, 4)), tok, nlist=True)
     odecls = gen_decls(rng, rng.sample(LEAVES, rng.randint(1, 2)), tok)
     # a parent key that shares its name with a list key of the subcommand is not str-typed (the model does not tell a
     # str token from an int token when the code tries it as a List[int] element)
@@ -265,6 +320,7 @@ def gen_sub_case(rng):
         # mostly with a section of the chosen subcommand (a first file without one is rejected on the unchanged tree)
         patterns.append({"pattern": nm, "matches": [{"name": nm, "doc": early_doc(rng.random() < (0.9 if i == 0 else 0.5)),
                                                       "fmt": rng.choice(FMTS), "blank": ""}]})
+    relist_patterns(rng, patterns, p=0.25)
     envcfg = None
     if rng.random() < 0.3:
         envcfg = {"doc": early_doc(rng.random() < 0.6), "as": rng.choice(["file", "string"]), "fmt": rng.choice(FMTS)}
@@ -293,9 +349,10 @@ def gen_sub_case(rng):
         "default_env": rng.random() < 0.65, "os_default_env": os_default_env,
         "os_default_env_text": rng.choice(["true", "True", "TRUE"]) if os_default_env else rng.choice(["false", "False"]),
         "env_arg": rng.choice([None, None, None, True, False]), "dcf_empty_list": rng.random() < 0.5,
-        "patterns": patterns, "envcfg": envcfg, "envvars": envvars, "stage_at": None,
-        "entry": {"kind": "args", "argv": argv},
-        "sub": {"name": name, "decls": sdecls, "other": {"name": other, "decls": odecls}, "sorted": rng.random() < 0.5,
+        "patterns": patterns, "envcfg": envcfg, "envvars": envvars, "stage_at": None, "env_bare": rng.random() < 0.5,
+        "entry": {"kind": "args", "argv": argv, "via_sysargv": rng.random() < 0.1},
+        # the variable PREFIX_SUBCOMMAND: unset, the subcommand the command line names, the other one, no subcommand at all
+        "sub": {"envsub": rng.choice([None, None, None, name, name, other, "zzz"]), "name": name, "decls": sdecls, "other": {"name": other, "decls": odecls}, "sorted": rng.random() < 0.5,
                 "has_cfg": has_cfg, "envvars": subenv, "argv": subargv},
     }
 
@@ -418,9 +475,10 @@ def term(case, obs):
         o = "(Some (%s, %s))" % (g_list([g_obs_val(v) for v in obs["values"]], "val"), g_bool(bool(obs["extra"])))
     sub = case.get("sub")
     if sub:
-        ksub = "(Some (%s, %s, %s, %s))" % (
+        ksub = "(Some (%s, %s, %s, %s, %s))" % (
             g_pair(g_str(sub["name"]), "false"), g_decls(sub["decls"]),
-            g_list([g_pair(g_key(k), g_val(v)) for k, v in sub["envvars"]], "(tpath * val)"), g_argv(sub["argv"]))
+            g_list([g_pair(g_key(k), g_val(v)) for k, v in sub["envvars"]], "(tpath * val)"), g_argv(sub["argv"]),
+            g_opt(None if sub.get("envsub") is None else g_pair(g_str(sub["envsub"]), "false")))
     else:
         ksub = "None"
     return "{| k_call := %s; k_sub := %s; k_obs := %s |}" % (call, ksub, o)
@@ -545,14 +603,18 @@ META = {
                   "well-formed parse call (any number of flat/nested scalar, list and dict keys, default config files, "
                   "environment sources and command line items) the code-shaped model of get_defaults / _load_env_vars / "
                   "merge_config / apply_config / the argv fold returns, for every declared key, the value of the left fold of "
-                  "apply_assignment over the sources in the documented order. The model is tied to jsonargparse by running real "
+                  "apply_assignment over the sources in the documented order; C04_subcommand_variable_is_not_a_source: with a subcommand, "
+                  "PREFIX_SUBCOMMAND contributes no value unless it names the chosen subcommand while the environment is read. The model is tied to jsonargparse by running real "
                   "parsers end to end through parse_args/parse_env/parse_string/parse_object and judging agreement inside Coq.",
     "level_note": "One guard (finding class 1): an append ('key+') inside the config named by the config environment variable "
                   "when the earlier list is non-empty. Calls with a subcommand level (class 2) are modelled (Model/C04Sub.v pipeline_sub, "
                   "composed of the proved pieces) and judged per case against the same documented fold over the keys of both levels "
                   "(Spec flat_call), but the precedence theorem is not yet proved for pipeline_sub: there the guarantee is the "
-                  "correspondence only. Three findings of that level have their own classes (3, 4, 5) with _refuted witnesses; a "
-                  "class 3-5 verdict requires that the faithful model reproduces the observation. Trusted: Coq kernel/VM; model faithfulness outside the sampled scenarios; "
+                  "correspondence only. Four findings of that level have their own classes (3, 4, 5, 6) with _refuted witnesses; a "
+                  "class 3-6 verdict requires that the faithful model reproduces the observation. Round 6: PREFIX_SUBCOMMAND is inside the model "
+                  "(load_env_vars_sub): C04_subcommand_variable_is_not_a_source proves for every call that a value not naming the chosen "
+                  "subcommand (or any value while the environment is not read) changes nothing; a value naming it resets the NAME: sections of "
+                  "default config files / environment config to the subcommand's defaults (finding class 6, _refuted witness). Trusted: Coq kernel/VM; model faithfulness outside the sampled scenarios; "
                   "harness rendering of documents, options and variable names. No axioms.",
     "technique": "Rocq proof by refinement (nested namespace tree -> flat fold, invariants: unique names, shape) + end-to-end correspondence evaluated in Coq",
 }
